@@ -481,6 +481,7 @@ class Interp(ExprMixin, CallMixin):
     # ---------------------------------------------------------------- branches
     def s_If(self, s, st, frame):
         c = self.eval(s.test, st, frame)
+        self.truth(s.test, self._bare_value(s.test, c, st, frame), st, frame)
         tf, ff = self.cond_facts(s.test)
         if c.has_const() and not isinstance(c.const, (AV,)):
             self.ev(frame, st, "branch", s, value=c, note="pruned:%s" % bool(c.const))
